@@ -20,7 +20,10 @@ from .tlc import MachineryError  # noqa: F401
 
 VERIF = _tlc.VERIF
 REPO = os.environ.get("VERIF_REPO", "/repo")
-EVIDENCE = os.path.join(VERIF, "evidence")
+# experiments (another checkout through VERIF_REPO, another seed) must not overwrite the evidence of the
+# registered commands: VERIF_EVIDENCE_DIR redirects it, and a foreign checkout defaults to a scratch directory
+EVIDENCE = os.environ.get("VERIF_EVIDENCE_DIR") or (
+    os.path.join(VERIF, "evidence") if os.path.realpath(REPO) == "/repo" else "/tmp/verif-evidence-" + os.path.basename(REPO))
 REPLAYS = os.path.join(VERIF, "replays")
 KNOWN = os.path.join(VERIF, "known_findings.json")
 WORKROOT = os.path.join(VERIF, ".work")
